@@ -578,6 +578,39 @@ def run_check(run, tier, seed, shard):
             continue
         judge_text(run, text, plan['name'], dict(workload='random', plan=plan))
         check_interchangeable(run, des.dut, plan['name'], dict(workload='random', plan=plan))
+    # (i) declared external black boxes: named modules handed in through createdStructures are not emitted and may be instantiated
+    import py4hw.rtl_generation as rg
+    n = 40 if quick else 800
+    for i in shard_slice(range(n), shard):
+        if time.time() > deadline or run.too_many:
+            break
+        rnd = rng(seed, 'c03-blackbox', i)
+        g = dutgen.Gen(rnd, max_width=rnd.choice([8, 16]))
+        plan = g.plan(n_nodes=rnd.randint(4, 12), depth=rnd.randint(0, 2))
+        try:
+            des = dutgen.instantiate(plan)
+            named = set()
+
+            def walk(o):
+                for c in o.children.values():
+                    if hasattr(c, 'structureName'):
+                        named.add(rg.getVerilogModuleName(c))
+                    walk(c)
+            walk(des.dut)
+            if not named:
+                continue
+            ext = set(rnd.sample(sorted(named), rnd.randint(1, len(named))))
+            with muted():
+                text = py4hw.VerilogGenerator(des.dut).getVerilogForHierarchy(createdStructures=sorted(ext))
+        except Exception:
+            run.count('refused')
+            continue
+        run.count('blackbox_texts')
+        d = judge_text(run, text, plan['name'] + '/blackbox', dict(workload='blackbox', plan=plan, external=sorted(ext)), blackboxes=ext)
+        for m in ext:
+            if m in d.mods:
+                run.violation('external_module_emitted', dict(clause='black box'), dict(workload='blackbox', plan=plan, module=m),
+                              what='%s: module %s was declared external (createdStructures) but is defined in the text' % (plan['name'], m))
     # (h) histories: the text returned after an earlier request and a structural change must still be a closed design
     n = 60 if quick else 1500
     for i in shard_slice(range(n), shard):
